@@ -23,12 +23,14 @@ type LedgerObl struct {
 }
 
 type LedgerFunc struct {
-	Complete   bool `json:"complete"`
-	Abstracted bool `json:"abstracted"`
+	Complete     bool     `json:"complete"`
+	Abstracted   bool     `json:"abstracted"`
+	Uncontracted []string `json:"uncontracted,omitempty"` // callees without contract on the unchanged tree (havoc)
 }
 
 type Ledger struct {
 	Property    string                 `json:"property"`
+	Schema      int                    `json:"schema,omitempty"` // 2: functions record their callees without contract
 	Tree        string                 `json:"tree"`
 	Functions   map[string]LedgerFunc  `json:"functions"`
 	Obligations []LedgerObl            `json:"obligations"`
@@ -385,7 +387,7 @@ func cmdCheck(args []string) int {
 	for i := range items {
 		byName[items[i].Obl.Name] = &items[i]
 	}
-	newLedger := &Ledger{Property: id, Functions: map[string]LedgerFunc{}}
+	newLedger := &Ledger{Property: id, Schema: 2, Functions: map[string]LedgerFunc{}}
 	funcAllProved := map[string]bool{}
 	for _, r := range results {
 		if r.Err == "" {
@@ -476,7 +478,7 @@ func cmdCheck(args []string) int {
 		if ledger != nil {
 			stale := ""
 			for _, u := range unbound {
-				if strings.HasPrefix(u, o.Func+":") && !strings.Contains(u, "no call to ") {
+				if strings.HasPrefix(u, o.Func+":") && !strings.Contains(u, "no call to ") && !strings.Contains(u, "[every remaining loop is annotated]") {
 					stale = u
 				}
 			}
@@ -485,6 +487,26 @@ func cmdCheck(args []string) int {
 				undecided = append(undecided, o.Name+" (stale contract)")
 				claimed--
 				continue
+			}
+			// The function now calls code without a contract that it did not call on the unchanged tree (a new helper,
+			// a new library call): the effect of that call is unknown to the proofs, so what fails is undecided.
+			if lf, ok := ledger.Functions[o.Func]; ok && it.VC != nil && ledger.Schema >= 2 {
+				known := map[string]bool{}
+				for _, u := range lf.Uncontracted {
+					known[u] = true
+				}
+				newDep := ""
+				for u := range it.VC.uncontracted {
+					if !known[u] {
+						newDep = u
+					}
+				}
+				if newDep != "" {
+					fmt.Printf("UNDECIDED %s (%s; the function now calls %s, for which there is no contract)\n", o.Name, it.Res.Status, newDep)
+					undecided = append(undecided, o.Name+" (new callee without contract)")
+					claimed--
+					continue
+				}
 			}
 		}
 		if ledger == nil || inLedger || completeFn {
@@ -553,7 +575,12 @@ func cmdCheck(args []string) int {
 	// evidence
 	for _, r := range results {
 		if r.Err == "" {
-			newLedger.Functions[r.Key] = LedgerFunc{Complete: funcAllProved[r.Key], Abstracted: len(r.Abstracted) > 0}
+			var unc []string
+			for u := range r.VC.uncontracted {
+				unc = append(unc, u)
+			}
+			sort.Strings(unc)
+			newLedger.Functions[r.Key] = LedgerFunc{Complete: funcAllProved[r.Key], Abstracted: len(r.Abstracted) > 0, Uncontracted: unc}
 		}
 	}
 	if *bless {
